@@ -499,7 +499,7 @@ func main() {
 			out.Marker = marker
 			{
 				rec := newRecorder()
-				out.Plain = evalRoute(src, rec, risor.WithGlobals(rec.builtins()), risor.WithLocalImporter(rootArg))
+				out.Plain = evalRoute(src, rec, risor.WithGlobals(rec.builtins()), risor.WithLocalImporter(rootArg), risor.WithConcurrency())
 			}
 			{
 				rec := newRecorder()
@@ -515,7 +515,7 @@ func main() {
 						shared[rootArg] = inner
 					}
 				}
-				out.Local = evalRoute(src, rec, g, risor.WithImporter(&recImporter{inner: inner, rec: rec, base: dir}))
+				out.Local = evalRoute(src, rec, g, risor.WithImporter(&recImporter{inner: inner, rec: rec, base: dir}), risor.WithConcurrency())
 			}
 			{
 				rec := newRecorder()
@@ -523,11 +523,11 @@ func main() {
 				inner := importer.NewFSImporter(importer.FSImporterOptions{
 					GlobalNames: globalNames(g), SourceFS: &recFS{inner: os.DirFS(root), rec: rec},
 					Extensions: []string{".risor", ".rsr"}})
-				out.FS = evalRoute(src, rec, g, risor.WithImporter(&recImporter{inner: inner, rec: rec}))
+				out.FS = evalRoute(src, rec, g, risor.WithImporter(&recImporter{inner: inner, rec: rec}), risor.WithConcurrency())
 			}
 			{
 				rec := newRecorder()
-				out.Incr = evalIncr(src, rec, risor.WithGlobals(rec.builtins()), risor.WithLocalImporter(rootArg))
+				out.Incr = evalIncr(src, rec, risor.WithGlobals(rec.builtins()), risor.WithLocalImporter(rootArg), risor.WithConcurrency())
 			}
 			_ = enc.Encode(&out)
 		}
